@@ -35,6 +35,10 @@
       -> load | ok loaded=<NumCtx the runner was loaded with> imgs=<…> prompt=<hex>
          (prompt/imgs = what the handler passes to Completion) | err…
 
+    ochat <same head as hchat … <sysHex> <nModel> {msg}*> <nReq> {<role> S <contenthex> | <role> P <nparts> {T <hex> | I <src> <ok>}*}*
+      POST /v1/chat/completions (OpenAI-compatible entry): openai.ChatMiddleware's `fromChatRequest` (every part of a
+      content array becomes its own message) followed by ChatHandler -> as hchat
+
     handler <sysHex> <nModel> {msg}* <nReq> {msg}*        (msg as above)
       ChatHandler's conversation: -> <role>:<contenthex>;…
 -/
@@ -63,6 +67,21 @@ def pMsg : TP Msg := do
   let c ← hex
   let imgs ← listOf pImg
   pure ⟨r, splitImg c, imgs⟩
+
+def pOPart : TP OPart := do
+  let t ← tok
+  match t with
+  | "T" => return .text (splitImg (← hex))
+  | "I" => return .image (← pImg)
+  | _ => failure
+
+def pOMsg : TP OMsg := do
+  let r ← pRole
+  let t ← tok
+  match t with
+  | "S" => return ⟨r, .str (splitImg (← hex))⟩
+  | "P" => return ⟨r, .parts (← listOf pOPart)⟩
+  | _ => failure
 
 def pFld : TP Fld := do
   let t ← tok
@@ -250,6 +269,37 @@ def handle (toks : List String) : Option String :=
       let sys ← hex
       let mm ← listOf pMsg
       let req ← listOf pMsg
+      let optInt : String → Option Int := fun s => if s == "-" then none else s.toInt?
+      let tv : TVar := ⟨variant / 2 % 4, variant / 8 % 2 != 0⟩
+      let lim := requestNumCtx dflt (optInt mp) (optInt ro)
+      pure (match req, tmpl with
+        | [], _ => "load"
+        | _, none => "opaque"
+        | _, some t =>
+          let loaded := s!"loaded={runnerNumCtx lim par}"
+          match chatHandler (variant % 2 != 0) false tv t dflt (optInt mp) (optInt ro) par mm sys req tools with
+          | .panicEmpty => "panic:empty"
+          | .errTooMany => "err:too-many-images"
+          | .errPreprocess => "err:preprocess"
+          | .tmplErr e => showErr e
+          | .tokErr => "err:tokenize"
+          | .ok _ _ _ _ imgs p => s!"ok {loaded} imgs={showImgs imgs} prompt={hexOrDash p}")) rest
+  | "ochat" :: rest =>
+    runTP (do
+      let variant ← nat
+      let dflt ← int
+      let mp ← tok
+      let ro ← tok
+      let par ← nat
+      let _src ← tok
+      let tmpl ← pTmpl rest.length
+      let ntools ← nat
+      let toolsJson ← hex
+      let tools : ToolsV := ⟨toolsJson, ntools != 0⟩
+      let sys ← hex
+      let mm ← listOf pMsg
+      let oreq ← listOf pOMsg
+      let req := fromOpenAI oreq
       let optInt : String → Option Int := fun s => if s == "-" then none else s.toInt?
       let tv : TVar := ⟨variant / 2 % 4, variant / 8 % 2 != 0⟩
       let lim := requestNumCtx dflt (optInt mp) (optInt ro)
